@@ -39,6 +39,21 @@ def composed(tier):
     return comp
 
 
+def random_stage(tier, modes=('values', 'items')):
+    """A per-epoch reshuffle (seeded generator) in front of prefetch / parallel map: every epoch must equal the plain
+    pipeline with an equally seeded generator."""
+    out = []
+    for backend in ['t'] + _e2.PROCESS_BACKENDS:
+        for entry, w, b in (('prefetch', 2, 2), ('prefetch', 1, 2), ('parmap', 2, 2), ('parmap', 1, 1)):
+            for mode in modes:
+                if mode == 'items' and backend in ('multiprocessing', 'concurrent_mp'):
+                    continue
+                for n in ((3,) if tier == 'quick' else (2, 3, 4)):
+                    out.append(dict(entry=entry, n=n, w=w, b=b, backend=backend, mode=mode, pre=['reshuffle'], twin=True,
+                                    consumers=[['exhaust'], ['exhaust'], ['exhaust']]))
+    return out
+
+
 def static_len(result):
     """len(ds.prefetch(...)) / len(parallel map) equals len(ds)."""
     import lazy_dataset
@@ -96,6 +111,8 @@ def run(tier):
                                     consumers=[['two-iterators', k]]))
     _e2.run_matrix('C04', 'oracle_values', [(c, 'D', None) for c in special], res,
                    'unusual example types; two live iterators over one dataset; mode D')
+    _e2.run_matrix('C04', 'oracle_values', [(c, 'D', None) for c in random_stage(tier)], res,
+                   'per-epoch reshuffle upstream, three epochs, differential against the equally seeded plain pipeline; mode D')
     comp = composed(tier)
     _e2.run_matrix('C04', 'oracle_values', [(c, 'D', None) for c in comp], res, 'composed pipelines, mode D')
     _e2.run_matrix('C04', 'oracle_values', [(c, 'L', 1) for c in comp if c['n'] == 2 or tier == 'thorough'], res,
